@@ -15,6 +15,22 @@ MUT = "agilerl.hpo.mutation"
 
 
 def run(ck: Check, repo: Repo) -> None:
+    # the "uses the agent's current learning rate" clause after an RL-hyper-parameter mutation is decided by the C06 rules on the same code;
+    # their obligations are taken over here (run first: a nested Check resets the per-run pattern environments)
+    from dataclasses import replace
+    from . import c06
+    sub = Check("C06", ck.tier, ck.repo_root)
+    sub.known = []
+    c06.run(sub, repo)
+    ck.rule("C02.7", "after an RL-hyper-parameter mutation every optimizer registered for the mutated learning rate uses the new value "
+                     "(obligations of C06.4 and C06.6, shared with the C06 check)")
+    taken = [replace(o, rule="C02.7") for o in sub.obs if o.rule in ("C06.4", "C06.6")]
+    if len(taken) < 8:
+        raise AnalysisError(f"C02.7: only {len(taken)} obligations taken over from C06.4 / C06.6")
+    for o in taken:
+        if o.status == "violated" and ck._known_entry(o) is not None:
+            o.status = "known"
+    ck.obs.extend(taken)
     ck.not_decided += ["identity of the optimizer's parameters with the live tensors at run time",
                        "that a learn step really moves the parameters (numeric)"]
     ck.rule("C02.1", "optimizer re-creation (reinit_opt over all optimizers) post-dominates every store of a network into the individual "
